@@ -38,7 +38,24 @@ def api():
         # test here, so give the parser a clean version string (api.__version__ is a separate binding)
         pymoca.__version__ = "0+verif.mc"
         _api = a
+        _install_version_marker(a)
     return _api
+
+
+def _install_version_marker(a):
+    """A different pymoca version may compile the same sources differently - that is why the cache stores
+    the version.  The harness changes versions by assigning api.__version__ = "verif-<n>"; to make the
+    compiling version observable, the model compiled by version n > 1 gets nominal = n on its first state
+    (a plain python attribute, so it travels through the cache file).  Version 1 is left untouched."""
+    real = a._compile_model
+
+    def compile_with_marker(model_folder, model_name, compiler_options):
+        m = real(model_folder, model_name, compiler_options)
+        v = str(a.__version__)
+        if v.startswith("verif-") and v != "verif-1" and m.states:
+            m.states[0].nominal = float(v.split("-")[1])
+        return m
+    a._compile_model = compile_with_marker
 
 
 # ---------------------------------------------------------------------------------------------
@@ -292,6 +309,12 @@ def project(model, npts=3):
                 row.append(pair)
             da.append(row)
     out["delay_arguments"] = da
+    # structural dependencies of the reconstructed durations (auxiliary: compared as drift only)
+    deps = []
+    for d in model.delay_arguments:
+        e = d.duration
+        deps.append(sorted(s.name() for s in ca.symvar(e)) if isinstance(e, ca.MX) else [])
+    out["delay_duration_symbols"] = deps
     return out
 
 
@@ -342,6 +365,8 @@ def compare(ref, got):
             bad.append((fn + "_function", "values %s expected %s" % (json.dumps(g["vals"])[:160], json.dumps(r["vals"])[:160])))
     if not _close(ref["delay_arguments"], got["delay_arguments"]):
         bad.append(("delay_arguments", "%s expected %s" % (json.dumps(got["delay_arguments"])[:160], json.dumps(ref["delay_arguments"])[:160])))
+    if ref.get("delay_duration_symbols") != got.get("delay_duration_symbols"):
+        drift.append(("duration-structure", "%s vs %s" % (got.get("delay_duration_symbols"), ref.get("delay_duration_symbols"))))
     return bad, drift
 
 
@@ -379,6 +404,11 @@ def decode(proj):
     dv = ids_from([start("x"), start("b.w"), start("b.t.z"), start("b.u.q")])
     dv["simp"] = "y" not in all_names
     dv["ev"] = "v[1]" in all_names
+    nom = names.get("x")
+    try:
+        dv["by"] = int(nom[5][1][0][0]) or 1 if nom else 1     # nominal attribute of x: 0 (default) = version 1
+    except Exception:
+        dv["by"] = 1
     # residual at the point with every input 0 except parameters = 1 cannot be asked of the observation;
     # use differences instead: the residual is affine in its inputs, constants show at any two points.
     fv = proj["funcs"]["dae_residual"]
